@@ -707,33 +707,39 @@ func randomMapTrace(id int, seed int64, steps int, out *json.Encoder, fixed *map
 		}
 	}
 	if storesOut != nil {
-		if rng.Intn(3) == 0 {
+		if rng.Intn(10) == 0 {
 			r.concurrentCloneFlush(rng)
 		}
 		r.dumpStores()
 	}
 }
 
-// concurrentCloneFlush: a tree and its clone, modified differently, are persisted at the same time from two goroutines
-// (not part of the validated history; every Store call ends up in the C08 dump).
+// concurrentCloneFlush: a tree and its clone, modified differently, are persisted at the same time from two goroutines. The
+// trees are large enough for the two flushes to overlap; every Store call goes to the C08 dump under a namespace of its own.
 func (r *mapRun) concurrentCloneFlush(rng *rand.Rand) {
+	nk := 120 + rng.Intn(120)
+	bf := []uint{2, 3, 4}[rng.Intn(3)]
+	kc := bigKeyCodec("int", nk, bf)
+	vc := newValCodec("int")
+	st := newRecStore(fmt.Sprintf("cloneflush-%d", r.cfg.ID))
+	st.keepAll = true
 	o := nfOf(r.cfg.NF)
-	o.BranchFactor = r.cfg.Bf
-	m1, err := mast.NewRoot(&o).LoadMast(ctx, r.remoteCfg(true))
+	o.BranchFactor = bf
+	m1, err := mast.NewRoot(&o).LoadMast(ctx, &mast.RemoteConfig{KeysLike: 0, ValuesLike: 0, StoreImmutablePartsWith: st})
 	if err != nil {
 		return
 	}
-	for k := 1; k <= r.cfg.NK; k++ {
-		m1.Insert(ctx, r.kc.Key(k), r.vc.Val(1))
+	for k := 1; k <= nk; k++ {
+		m1.Insert(ctx, kc.Key(k), 1)
 	}
 	c, err := m1.Clone(ctx)
 	if err != nil {
 		return
 	}
 	m2 := &c
-	for i := 0; i < 3; i++ {
-		m1.Insert(ctx, r.kc.Key(1+rng.Intn(r.cfg.NK)), r.vc.Val(2))
-		m2.Delete(ctx, r.kc.Key(1+rng.Intn(r.cfg.NK)), r.vc.Val(1))
+	for i := 0; i < 40; i++ {
+		m1.Insert(ctx, kc.Key(1+rng.Intn(nk)), 2)
+		m2.Insert(ctx, kc.Key(1+rng.Intn(nk)), 3)
 	}
 	done := make(chan struct{}, 2)
 	for _, m := range []*mast.Mast{m1, m2} {
@@ -744,6 +750,22 @@ func (r *mapRun) concurrentCloneFlush(rng *rand.Rand) {
 	}
 	<-done
 	<-done
+	ns := fmt.Sprintf("cloneflush/%s/bf%d/nk%d", r.cfg.NF, bf, nk)
+	for _, s := range st.allStores {
+		ev := stEvent{Op: "st", NS: ns, Tr: r.cfg.ID, Name: s.Name, BDig: nodeName(s.Bytes), HashOk: nodeName(s.Bytes) == s.Name,
+			Node: stNode{K: []int{}, V: []int{}, C: []string{}}}
+		if rn, err := decodeNode(r.cfg.NF, s.Bytes); err == nil {
+			ev.Dec = true
+			for i := range rn.Keys {
+				ev.Node.K = append(ev.Node.K, kc.RankFromJSON(rn.Keys[i]))
+			}
+			for i := range rn.Vals {
+				ev.Node.V = append(ev.Node.V, vc.RankFromJSON(rn.Vals[i]))
+			}
+			ev.Node.C = append(ev.Node.C, rn.Links...)
+		}
+		storesOut.Encode(ev)
+	}
 }
 
 // storesOut, when set, receives every Persist.Store call of every history (C08).
@@ -809,4 +831,47 @@ func replayMapTrace(id int, seed int64, beh behT, out *json.Encoder) {
 			r.exec(absOp{Op: "root", H: h})
 		}
 	}
+}
+
+type transT struct {
+	BF      int    `json:"bf"`
+	Layers  []int  `json:"layers"`
+	Present []int  `json:"present"`
+	Op      string `json:"op"`
+	K       int    `json:"k"`
+}
+
+// transMapTrace executes one transition enumerated by TLC from MastTrans.tla: reach the state (ascending inserts; in memory, or
+// persisted, or persisted and reopened), apply the operation, persist.
+func transMapTrace(id int, seed int64, tr transT, out *json.Encoder) {
+	rng := rand.New(rand.NewSource(seed))
+	cfg := mapCfg{ID: id, Bf: uint(tr.BF), NK: len(tr.Layers), NV: 2, KT: "userkey", VT: []string{"int", "string"}[rng.Intn(2)],
+		NF: []string{"bin", "v1"}[rng.Intn(2)], Cache: []string{"none", "none", "large"}[rng.Intn(3)], Layers: tr.Layers, Src: "tlc-transition"}
+	r := newMapRun(cfg, rng, out)
+	r.reset()
+	r.exec(absOp{Op: "new", H: 1})
+	for _, k := range tr.Present {
+		r.exec(absOp{Op: "ins", H: 1, K: k, V: 1})
+	}
+	h := 1
+	switch id % 3 {
+	case 1:
+		r.exec(absOp{Op: "root", H: 1})
+	case 2:
+		before := r.nextR
+		r.exec(absOp{Op: "root", H: 1})
+		if r.nextR != before {
+			r.exec(absOp{Op: "load", G: 2, R: r.nextR, Cached: true})
+			if _, ok := r.hs[2]; ok {
+				h = 2
+			}
+		}
+	}
+	switch tr.Op {
+	case "ins", "upd":
+		r.exec(absOp{Op: "ins", H: h, K: tr.K, V: 2})
+	case "del":
+		r.exec(absOp{Op: "del", H: h, K: tr.K, V: 1})
+	}
+	r.exec(absOp{Op: "root", H: h})
 }
